@@ -73,7 +73,7 @@ def run_tlc(module, cfg, scratch, workers=16, env=None, extra_args=(), timeout=3
 # monitor pass of trace validation
 # ---------------------------------------------------------------------------------------------
 _VERDICT = re.compile(r'<<\s*"VERDICT",\s*(\d+),\s*(\d+),\s*(\{.*?\})\s*>>', re.S)
-_PAIR = re.compile(r'<<\s*"([A-Za-z0-9_]+)",\s*(\d+)\s*>>')
+_PAIR = re.compile(r'<<\s*"([A-Za-z0-9_]+)",\s*(\d+),\s*"([A-Za-z0-9_]*)"\s*>>')
 
 
 def parse_verdicts(out):
@@ -81,7 +81,7 @@ def parse_verdicts(out):
     flat = out.replace("\n", " ")
     for m in re.finditer(r'<<\s*"VERDICT",\s*(\d+),\s*(\d+),\s*\{(.*?)\}\s*>>', flat):
         res[int(m.group(1))] = {"lines": int(m.group(2)),
-                                "bad": [(a, int(b)) for a, b in _PAIR.findall(m.group(3))]}
+                                "bad": [(a, int(b), c) for a, b, c in _PAIR.findall(m.group(3))]}
     return res
 
 
